@@ -48,6 +48,9 @@ TDeleteExport == /\ IsEvent("delete_export") /\ Ev.k + 1 \in DOMAIN st.exports /
 TAddExport == /\ IsEvent("add_export") /\ IsLive(st, Ev.kind, Ev.target) /\ Ev.ret.ok /\ Becomes(AddExport(st, Ev.name, Ev.kind, Ev.target))
 TAddFunc == /\ IsEvent("add_func") /\ Ev.ret.ok /\ Ev.ret.id = Len(st.funcs) /\ Becomes(AddFunc(st, Ev.sig, Refs(Ev)))
 TAddImportFunc == /\ IsEvent("add_import_func") /\ Ev.ret.ok /\ Ev.ret.id = Len(st.funcs) /\ Becomes(AddImportFunc(st, Ev.field, Ev.sig))
+TAddImportTable == /\ IsEvent("add_import_table") /\ Ev.ret.ok /\ Ev.ret.id = Len(st.tables) /\ Becomes(AddImportTable(st, Ev.field, Ev.ety))
+TAddImportMemory == /\ IsEvent("add_import_memory") /\ Ev.ret.ok /\ Ev.ret.id = Len(st.memories) /\ Becomes(AddImportMemory(st, Ev.field))
+TAddImportGlobal == /\ IsEvent("add_import_global") /\ Ev.ret.ok /\ Ev.ret.id = Len(st.globals) /\ Becomes(AddImportGlobal(st, Ev.field))
 TAddGlobal == /\ IsEvent("add_global") /\ Ev.ret.ok /\ Ev.ret.id = Len(st.globals) /\ Becomes(AddGlobal(st, Ev.mutable, Ev.value))
 TAddMemory == /\ IsEvent("add_memory") /\ Ev.ret.ok /\ Ev.ret.id = Len(st.memories) /\ Becomes(AddMemory(st, Ev.pages))
 TAddTable == /\ IsEvent("add_table") /\ Ev.ret.ok /\ Ev.ret.id = Len(st.tables) /\ Becomes(AddTable(st, Ev.min))
@@ -62,7 +65,7 @@ TEmit == /\ IsEvent("emit") /\ UNCHANGED st
          /\ (WF(st) => (Ev.outcome = "ok" /\ Ev.out_valid))
 
 TNext == TReplaceImported \/ TReplaceExported \/ (\E sp \in ESpaces : TDelete(sp)) \/ TDeleteExport \/ TAddExport
-         \/ TAddFunc \/ TAddImportFunc \/ TAddGlobal \/ TAddMemory \/ TAddTable \/ TAddData \/ TAddElem \/ TSetStart \/ TClearStart \/ TEmit
+         \/ TAddFunc \/ TAddImportFunc \/ TAddImportTable \/ TAddImportMemory \/ TAddImportGlobal \/ TAddGlobal \/ TAddMemory \/ TAddTable \/ TAddData \/ TAddElem \/ TSetStart \/ TClearStart \/ TEmit
 
 TInit == k \in 1..Len(Cases) /\ l = 1 /\ st = Cases[k].init
 TSpec == TInit /\ [][TNext]_tvars
